@@ -9,12 +9,12 @@ confirm={}
 for line in open('/verif/work/seeded_confirm.txt'):
     m=re.match(r'(\S+)/(m\d+) demo_clean=(\S+) demo_patched=(\S+) suite=(\S+) (\S+)',line)
     if m: confirm[(m.group(1),m.group(2))]=dict(demo_clean=int(m.group(3)),demo_patched=int(m.group(4)),suite=int(m.group(5)),verdict=m.group(6))
-caught={}
+runs={}   # (pid,k) -> list of result dicts in file order
 for f in sys.argv[1:]:
     for line in open(f):
         m=re.match(r'(\S+?)-(m\d+)/patch\.diff tier=(\S+) caught:\[(.*?)\] silent:\[(.*?)\] infra:\[(.*?)\]',line)
         if m:
-            caught[(m.group(1),m.group(2),m.group(3))]=dict(caught=m.group(4).split(),silent=m.group(5).split(),infra=m.group(6).split())
+            runs.setdefault((m.group(1),m.group(2)),[]).append(dict(tier=m.group(3),caught=m.group(4).split(),silent=m.group(5).split(),infra=m.group(6).split()))
 os.makedirs(DST,exist_ok=True)
 n=0
 for (pid,k),c in sorted(confirm.items()):
@@ -29,18 +29,17 @@ for (pid,k),c in sorted(confirm.items()):
          "author":"independent sub-agent given only the property text and a scratch worktree",
          "confirmed_by_me":{"worktree":f"scratch worktree of /repo HEAD under /tmp/wt/{pid} (removed afterwards)","demo_exit_on_clean_tree":c['demo_clean'],"demo_exit_with_patch":c['demo_patched'],"repo_suite_exit_with_patch (cargo test --workspace --no-fail-fast --offline)":c['suite']},
          "checks":{}}
-    for tier in ("quick","thorough"):
-        r=caught.get((pid,k,tier))
-        if r: out["checks"][tier]={"caught_by":r['caught'],"silent":r['silent'],"infrastructure":r['infra']}
-    old=dst+'/meta.json'
-    if os.path.exists(old):
-        try:
-            prev=json.load(open(old))
-            for t,v in prev.get("checks",{}).items():
-                out["checks"].setdefault(t,v)
-            for key in ("notes",): 
-                if key in prev: out[key]=prev[key]
-        except Exception: pass
+    rs=runs.get((pid,k),[])
+    if rs:
+        first=rs[0]
+        out["checks"]["first_run"]={"tier":first['tier'],"checks_run":sorted(first['caught']+first['silent']+first['infra']),"caught_by":first['caught'],"silent":first['silent'],"infrastructure":first['infra']}
+        out["caught_by_own_property_in_first_run"]= pid in first['caught']
+        later=[r for r in rs[1:]]
+        if later:
+            out["checks"]["after_strengthening"]=[{"tier":r['tier'],"checks_run":sorted(r['caught']+r['silent']+r['infra']),"caught_by":r['caught'],"silent":r['silent']} for r in later]
+        out["caught_by_own_property_now"]= any(pid in r['caught'] for r in rs)
+    notes_file=f'/verif/seeded/notes/{pid}-{k}.txt'
+    if os.path.exists(notes_file): out["notes"]=open(notes_file).read().strip()
     json.dump(out,open(dst+'/meta.json','w'),indent=1)
     n+=1
 print("collected",n,"seeded changes into",DST)
